@@ -11,8 +11,10 @@ def run(ctx: Ctx) -> None:
     comp = computed_sweep.sweep(ctx, {"C05"})
     from mc import gen_sweep
     gen = gen_sweep.sweep(ctx, {"C05"})
+    from mc.checks import c04_api
+    forest = c04_api.run_forest(ctx)
     ctx.coverage.update(
-        computed_repetition_sweep=comp,
+        computed_repetition_sweep=comp, forest_completeness=forest,
         states=agg["words"] + comp["words"] + gen["distinct_trees"], transitions=agg["words"] + comp["words"] + gen["runs"],
         traces_validated_against_impl=agg["pref_members"] + gen["roundtrips"],
         samples=agg["samples"] + gen["samples"], exhaustive=agg["skipped_words"] == 0 and gen["capped_pairs"] == 0,
